@@ -84,3 +84,40 @@ def lemma(a, b, lo, hi):
         loops={0: dict(inv=['dot(a, b, lo, h) == a[lo] * b[lo] + dot(a, b, lo + 1, h)'])},
     ),
 })
+
+# ---- the same for the ghost cdot(a, M, c, lo, hi) = sum_{lo <= j < hi} a[j]*M[j][c]   (row against a matrix column)
+MM = ('list', ('list', 'real'))
+CONTRACTS.update({
+    # a row entry outside [lo, hi) does not matter
+    'lemma.cdot_frame_first': dict(
+        props=['C16'], no_sum_frame=True,
+        source='''
+def lemma(a, m, c, k, v, lo, hi):
+    b = list(a)
+    b[k] = v
+    for h in range(lo, hi):
+        pass
+    return 0
+''',
+        args=OD([('a', V), ('m', MM), ('c', 'int'), ('k', 'int'), ('v', 'real'), ('lo', 'int'), ('hi', 'int')]), returns='int',
+        requires=['0 <= k', 'k < len(a)', 'lo <= hi', 'k < lo or k >= hi'],
+        ensures=['cdot(b, m, c, lo, hi) == cdot(a, m, c, lo, hi)'],
+        loops={0: dict(inv=['cdot(b, m, c, lo, h) == cdot(a, m, c, lo, h)'])},
+    ),
+    # replacing row r of the matrix does not matter if r is outside [lo, hi) or the new row agrees in column c
+    'lemma.cdot_frame_matrix': dict(
+        props=['C16'], no_sum_frame=True,
+        source='''
+def lemma(a, m, c, r, row, lo, hi):
+    w = list(m)
+    w[r] = row
+    for h in range(lo, hi):
+        pass
+    return 0
+''',
+        args=OD([('a', V), ('m', MM), ('c', 'int'), ('r', 'int'), ('row', V), ('lo', 'int'), ('hi', 'int')]), returns='int',
+        requires=['0 <= r', 'r < len(m)', 'lo <= hi', 'r < lo or r >= hi or row[c] == m[r][c]'],
+        ensures=['cdot(a, w, c, lo, hi) == cdot(a, m, c, lo, hi)'],
+        loops={0: dict(inv=['cdot(a, w, c, lo, h) == cdot(a, m, c, lo, h)'])},
+    ),
+})
